@@ -77,6 +77,13 @@ class TlsWith(Rule):
             if tm:
                 out.append(Edit(tm.start(), tm.start() + 1, "", "rule", "D4"))
             body_s, body_e = pm.end(), pc
+            if re.search(r"\breturn\b|\?", m[body_s:body_e]):
+                # the closure body becomes a block of the host function: a `return` / `?` in it keeps its meaning only if the
+                # `.with(..)` call is the tail expression of the host function (then leaving the closure IS leaving the function)
+                before = m[item.body_open:st].rstrip()
+                after = re.sub(r"[\s)},]", "", m[pc + 1:item.body_close])
+                if after != "" or not before.endswith(("{", "|", ";", "}")):
+                    raise GenError("construct outside the dialect: `return` or `?` inside a %s.with(..) closure that is not the tail of the function" % self.static)
             pats = [
                 (r"let\s+mut\s+%s\s*=\s*%s\s*\.\s*borrow_mut\(\)\s*;" % (param, param), "let %s = &mut tls.%s;" % (param, self.field)),
                 (r"let\s+%s\s*=\s*%s\s*\.\s*borrow\(\)\s*;" % (param, param), "let %s = &tls.%s;" % (param, self.field)),
